@@ -15,6 +15,8 @@ def _jobs(tier):
         jobs.append(dict(sub="module", count=geo(k, 600, 6, 8) * mult, fix=dict(k=k), flavour="asan"))
     jobs.append(dict(sub="tables", count=4000 * mult, fix=dict(logm=(0, 7)), split=2))
     jobs.append(dict(sub="tables", count=400 * mult, fix=dict(logm=(8, 12))))
+    jobs.append(dict(sub="tables", count=60 * mult, fix=dict(logm=(13, 16), fn=(0, 3), nbuf=(1, 2)), split=2))
+    jobs.append(dict(sub="tables", count=40 * mult, fix=dict(logm=(13, 16))))
     return jobs
 
 
@@ -31,5 +33,6 @@ PLAN = dict(
     quick=_jobs("quick"), thorough=_jobs("thorough"),
     fuzz=desc_fuzz("C18", fix=dict(k=(1, 10), logm=(0, 10))),
     required_classes=dict(all=["call:" + c for c in CALLS] + ["table:" + t for t in TABLES] +
-                          ["module:NTT120", "cfg:generic", "aliased_output_other_source_checked", "sources:2", "placement:packed-up", "placement:packed-down"]),
+                          ["module:NTT120", "cfg:generic", "aliased_output_other_source_checked", "sources:2", "placement:packed-up", "placement:packed-down",
+                           "table:built-in-buffers", "table:built-in-buffers,m>=16384"]),
 )
